@@ -18,7 +18,8 @@ under distribution, count arithmetic on values.
 import ast
 import itertools
 
-from ..model import AnalysisError, unparse, walk_no_nested, record_classes
+from ..model import (AnalysisError, unparse, walk_no_nested, record_classes,
+                     record_table)
 from ..tables import Abs, eval_function, Unsupported
 from ..linehooks import LineHooks
 from .refgraph import SeqHooks
@@ -92,6 +93,51 @@ def run(ctx):
     ctx.exhaustive[R] = True
 
     # ------------------------------------------------------------------
+    R = "C15.apply_copy_numbers"
+    ctx.rule(R, "apply_copy_numbers is multiply() applied once to every "
+             "segment with its copy number (read from the tag named by "
+             "count_tag), in increasing order of the copy number; it writes "
+             "nothing itself (the copies are made inside multiply, so a tag "
+             "written afterwards would differ between original and copies)",
+             floor=2)
+    f_acn = ctx.anchor("Gfa.apply_copy_numbers",
+                       gfacls.find_method("apply_copy_numbers"))
+    for tag in ("cn", "xc"):
+        ctx.instance(R)
+        segs = [Abs(S, label="s%d" % n, name="s%d" % n, _cn=n)
+                for n in (3, 0, 2)]
+
+        class CH(SeqHooks):
+            def method(self, ev, base, name, args, kwargs, node):
+                if isinstance(base, Abs) and base.label.startswith("s"):
+                    if name in ("get", "try_get"):
+                        ev.events.append(("read", base.label, args[0]))
+                        return base.attrs["_cn"]
+                    ev.events.append(("segment-call", base.label, name))
+                    return None
+                return super().method(ev, base, name, args, kwargs, node)
+        g = Abs(gfacls, label="gfa", segments=list(segs))
+        h = CH(repo, ["multiply"])
+        try:
+            out = eval_function(repo, f_acn, [g],
+                                {"count_tag": tag, "distribute": "equal",
+                                 "origin_tag": "og",
+                                 "conserve_components": False}, hooks=h)
+        except Unsupported as e:
+            raise AnalysisError(str(e))
+        muls = [e for e in out[2] if e[0] == "multiply"]
+        other = [e for e in out[2] if e[0] in ("store", "segment-call")]
+        reads = {e[2] for e in out[2] if e[0] == "read"}
+        ok = out[0] == "return" and not other and reads == {tag} and \
+            [(e[1], e[2]) for e in muls] == [("s0", 0), ("s2", 2), ("s3", 3)]
+        ctx.oblige(ok)
+        if not ok:
+            ctx.violation(R, f_acn.short, "count_tag=%s" % tag,
+                          "outcome %r; multiply calls %r; tags read %r; "
+                          "writes %r" % (out[0:2], muls, sorted(reads), other))
+    ctx.exhaustive[R] = True
+
+    # ------------------------------------------------------------------
     R = "C15.hashable_lines"
     ctx.rule(R, "every __hash__ defined in the library returns a value on "
              "every path (lines are put into sets by the multiplication and "
@@ -141,11 +187,24 @@ def run(ctx):
     f_ds = ctx.anchor("Multiplication.__divide_segment_and_connection_counts",
                       gfacls.find_method(
                           "__divide_segment_and_connection_counts"))
-    for circular in (False, True):
+    # a line can be a member of a set or a key only if the __hash__ its class
+    # resolves to gives an integer: decided per edge class and for named /
+    # unnamed edges by interpreting that __hash__
+    Cc = repo.cls("line.edge.Containment")
+    E2 = repo.cls("line.edge.GFA2")
+    kinds = {"link": (L, None), "link-with-ID": (L, "l9"),
+             "containment": (Cc, None), "containment-with-ID": (Cc, "c9"),
+             "unnamed-E": (E2, None), "named-E": (E2, "e9")}
+
+    def edge(kind, label, circ):
+        cls, nm = kinds[kind]
+        return Abs(cls, label=label, __circ=circ,
+                   __unhashable__=not hashable(repo, cls, nm))
+    for circular, kind in itertools.product((False, True), sorted(kinds)):
         ctx.instance(R)
-        l1 = Abs(L, label="l1", __circ=False)
-        l2 = Abs(L, label="l2", __circ=circular)
-        c1 = Abs(L, label="c1", __circ=False)
+        l1 = edge("link", "l1", False)
+        l2 = edge(kind, "l2", circular)
+        c1 = edge("containment", "c1", False)
         sg = Abs(S, label="seg", dovetails=[l1, l2, l2] if circular
                  else [l1, l2], containments=[c1])
 
@@ -164,9 +223,10 @@ def run(ctx):
         ok = out[0] == "return" and got == want
         ctx.oblige(ok)
         if not ok:
-            ctx.violation(R, f_ds.short, "circular_edge=%s" % circular,
-                          "divides the counts of %r, expected each of %r "
-                          "once" % (got, want))
+            ctx.violation(R, f_ds.short, "circular_edge=%s,edge=%s" % (
+                              circular, kind),
+                          "outcome %r; divides the counts of %r, expected "
+                          "each of %r once" % (out[0:2], got, want))
     ctx.exhaustive[R] = True
 
     # ------------------------------------------------------------------
@@ -179,26 +239,74 @@ def run(ctx):
              "their setters, the same side their getters read", floor=8)
     f_cl = ctx.anchor("Multiplication.__clone_segment_and_connections",
                       gfacls.find_method("__clone_segment_and_connections"))
-    for layout in ("from", "to", "both", "circular-listed-twice"):
+    PHc = repo.cls("Placeholder")
+    E2c = repo.cls("line.edge.GFA2")
+    for layout, named in itertools.product(
+            ("from", "to", "both", "circular-listed-twice"),
+            (None, "L", "E")):
         ctx.instance(R)
         made = []
+        ecls = E2c if named == "E" else L
+        nfield = record_table(repo, ecls).NAME_FIELD if named else None
+
+        def ident(c):
+            """identifier the (abstract) edge carries: its name field, as
+            the clone received it or as the function under analysis left it"""
+            v = c.attrs.get("__ident__")
+            for alias in (nfield, "name"):
+                if alias and alias in c.attrs:
+                    v = c.attrs[alias]
+            if isinstance(v, Abs) and v.cls is PHc:
+                return None
+            return None if v == "*" else v
 
         class KH(LineHooks):
             def method(self, ev, base, name, args, kwargs, node):
                 if name == "clone" and isinstance(base, Abs):
                     c = Abs(base.cls, label="clone(%s)" % base.label,
                             **{k: v for k, v in base.attrs.items()
-                               if k in ("from_segment", "to_segment", "name")})
+                               if k in ("from_segment", "to_segment", "name",
+                                        "__ident__", "positional_fieldnames",
+                                        "tagnames")})
                     made.append(c)
                     return c
                 if name == "connect" and isinstance(base, Abs):
-                    ev.events.append(("connect", base.label))
+                    ev.events.append(("connect", base.label, ident(base)))
                     return None
+                if isinstance(base, Abs) and base.label.startswith("clone("):
+                    if name == "set" and len(args) == 2:
+                        if args[0] in (nfield, "name"):
+                            base.attrs["__ident__"] = args[1]
+                        else:
+                            base.attrs[args[0]] = args[1]
+                        return None
+                    if name == "delete" and len(args) == 1:
+                        if args[0] in (nfield, "name"):
+                            base.attrs["__ident__"] = None
+                        return None
+                    if name in ("get", "try_get") and len(args) == 1:
+                        if args[0] in (nfield, "name"):
+                            return base.attrs.get("__ident__")
+                        return base.attrs.get(args[0])
                 return super().method(ev, base, name, args, kwargs, node)
+
+            def construct(self, ev, cls, args, kwargs):
+                if cls is PHc:
+                    return Abs(PHc, label="*", __bool__=False)
+                return super().construct(ev, cls, args, kwargs)
         fs, ts = {"from": ("s", "x"), "to": ("x", "s"), "both": ("s", "s"),
                   "circular-listed-twice": ("s", "s")}[layout]
-        e1 = Abs(L, label="e1", from_segment=fs, to_segment=ts)
-        other = Abs(L, label="e2", from_segment="y", to_segment="s")
+        pos = ["eid", "sid1", "sid2"] if named == "E" else \
+            ["from_segment", "from_orient", "to_segment", "to_orient",
+             "overlap"]
+        e1 = Abs(ecls, label="e1", from_segment=fs, to_segment=ts,
+                 __ident__="e9" if named else None,
+                 positional_fieldnames=pos,
+                 tagnames=["ID"] if named == "L" else [])
+        other = Abs(L, label="e2", from_segment="y", to_segment="s",
+                    __ident__=None, positional_fieldnames=[
+                        "from_segment", "from_orient", "to_segment",
+                        "to_orient", "overlap"], tagnames=[])
         dov = [e1, other] + ([e1] if layout == "circular-listed-twice" else [])
         sg = Abs(S, label="seg", name="s", dovetails=dov, containments=[])
         out = eval_function(repo, f_cl, [Abs(gfacls, label="gfa"), sg, "s*2"],
@@ -214,11 +322,14 @@ def run(ctx):
             clones["clone(e2)"].attrs["to_segment"] == "s*2" and \
             clones["clone(e2)"].attrs["from_segment"] == "y" and \
             sorted(e[1] for e in out[2] if e[0] == "connect") == \
-            ["clone(e1)", "clone(e2)", "clone(seg)"]
+            ["clone(e1)", "clone(e2)", "clone(seg)"] and \
+            not [e for e in out[2] if e[0] == "connect" and
+                 e[1] == "clone(e1)" and e[2] == "e9"]
         ctx.oblige(ok)
         if not ok:
             ctx.violation(
-                R, f_cl.short, "edge_side=%s" % layout,
+                R, f_cl.short, "edge_side=%s%s" % (
+                    layout, ",edge named by its %s" % nfield if named else ""),
                 "clones %r with fields %r, connects %r" % (
                     sorted(c.label for c in made),
                     {k: (c.attrs.get("from_segment"), c.attrs.get(
@@ -278,6 +389,40 @@ def run(ctx):
         if not ok:
             ctx.violation(R, f_cn.short, "in_use=%r,factor=%d" % (used, factor),
                           "gives %r, expected %r" % (got, want))
+    # "fresh" is decided against the registry itself: every identifier that
+    # a finder would resolve is in use, whichever collection holds it and
+    # whether the line is defined or only mentioned so far (a placeholder)
+    segc = repo.cls("line.segment.GFA1")
+    for version, holder in itertools.product(
+            ("gfa1", "gfa2", None),
+            ("S", "S-placeholder", "P", "O", "L", "C", "E", "G", "U")):
+        if version == "gfa1" and holder in ("O", "E", "G", "U"):
+            continue
+        if version == "gfa2" and holder in ("P", "L", "C"):
+            continue
+        ctx.instance(R)
+        recs = {k: {} for k in ("S", "P", "O", "L", "C", "E", "G", "U", "F",
+                                "#", "\n")}
+        recs["S"]["s"] = Abs(segc, label="s", virtual=False, _virtual=False)
+        virt = holder.endswith("placeholder")
+        recs[holder[0]]["s*2"] = Abs(segc, label="holder", virtual=virt,
+                                     _virtual=virt)
+        for k in ("L", "C", "E", "G", "U", "O"):
+            recs[k][7] = Abs(segc, label="unnamed", virtual=False,
+                             _virtual=False)
+        g = Abs(gfacls, label="gfa", _records=recs, _version=version)
+        try:
+            out = eval_function(repo, f_cn, [g, "s", 3], hooks=NH(repo))
+        except Unsupported as e:
+            raise AnalysisError(str(e))
+        ok = out[0] == "return" and out[1] == ["s*3", "s*4"]
+        ctx.oblige(ok)
+        if not ok:
+            ctx.violation(R, f_cn.short,
+                          "registry holds s*2 as %s,version=%s" % (
+                              holder, version),
+                          "gives %r, expected ['s*3', 's*4']: the identifier "
+                          "s*2 is in use" % (out[1],))
     f_sd = ctx.anchor("Multiplication._select_distribute_end",
                       gfacls.find_method("_select_distribute_end"))
     for pol, want in (("off", None), ("L", "L"), ("R", "R"),
@@ -325,16 +470,35 @@ def run(ctx):
                     name == "segment":
                 sn = args[0]
                 if sn not in self.segs:
-                    self.segs[sn] = Abs(None, label="seg:" + sn, links=[
-                        Abs(Lk, label="%s#%d" % (sn, j), sig=sig, owner=sn,
-                            idx=j) for j, sig in enumerate(self.sigs)])
+                    links, hairpin = [], None
+                    for j, sig in enumerate(self.sigs):
+                        if sig == "H":
+                            # a hairpin (both sides on this end) is one link
+                            # listed twice; its other end is this very end
+                            if hairpin is None:
+                                hairpin = Abs(Lk, label="%s#hairpin" % sn,
+                                              sig=sn + "R", owner=sn, idx=j)
+                            links.append(hairpin)
+                        else:
+                            links.append(Abs(Lk, label="%s#%d" % (sn, j),
+                                             sig=sig, owner=sn, idx=j))
+                    self.segs[sn] = Abs(None, label="seg:" + sn, links=links)
                 return self.segs[sn]
             if isinstance(base, Abs) and name == "dovetails_of_end":
                 return base.attrs["links"]
             if isinstance(base, Abs) and name == "other_end":
                 return Abs(SE, label=base.attrs["sig"], sig=base.attrs["sig"])
+            if isinstance(base, Abs) and name == "is_connected":
+                return (base.attrs["owner"], base.attrs["idx"]) not in \
+                    self.removed
             if isinstance(base, Abs) and name == "disconnect":
-                self.removed.append((base.attrs["owner"], base.attrs["idx"]))
+                key = (base.attrs["owner"], base.attrs["idx"])
+                if key in self.removed:
+                    # Disconnection.disconnect refuses a line that is not
+                    # connected (any more)
+                    from ..tables import Raised
+                    raise Raised("gfapy.RuntimeError")
+                self.removed.append(key)
                 return None
             return super().method(ev, base, name, args, kwargs, node)
 
@@ -381,6 +545,37 @@ def run(ctx):
                         "outcome %s; neighbour end(s) %s keep no link to the "
                         "segment or any copy (kept per copy: %r)" % (
                             out[0], lost, kept))
+    # a hairpin on the distributed end (listed twice in the list of the end)
+    for n in range(0, 4):
+        for combo in sorted(set(itertools.product("abc"[:max(n, 1)],
+                                                  repeat=n))):
+            for at in sorted({0, n // 2, n}):
+                sigs = list(combo[:at]) + ["H", "H"] + list(combo[at:])
+                for factor in (2, 3):
+                    ctx.instance(R)
+                    names = ["s"] + ["s*%d" % i for i in range(2, factor + 1)]
+                    dh = DH(repo, list(sigs))
+                    g = Abs(gfacls, label="gfa")
+                    out = eval_function(repo, f_dl, [g, "R", "s", names[1:],
+                                                     factor], hooks=dh)
+                    removed_idx = {}
+                    for (sn, j) in dh.removed:
+                        removed_idx.setdefault(sn, set()).add(j)
+                    covered = set()
+                    for sn in names:
+                        covered |= {sg for j, sg in enumerate(sigs)
+                                    if sg != "H" and
+                                    j not in removed_idx.get(sn, ())}
+                    lost = sorted(set(combo) - covered)
+                    ok = out[0] == "return" and not lost
+                    ctx.oblige(ok)
+                    if not ok:
+                        ctx.violation(
+                            R, f_dl.short, "neighbours=%s,factor=%d" % (
+                                "".join(sigs), factor),
+                            "outcome %r with a hairpin link (H, listed twice) "
+                            "on the distributed end; neighbour end(s) left "
+                            "without link: %s" % (out[0:2], lost))
     ctx.exhaustive[R] = True
 
 
@@ -391,6 +586,50 @@ class HashHooks(SeqHooks):
         if name == "is_circular" and isinstance(base, Abs):
             return base.attrs.get("__circ", False)
         return super().method(ev, base, name, args, kwargs, node)
+
+
+_HASHABLE = {}
+
+
+def hashable(repo, cls, name):
+    """does hash() of a line of class `cls` whose identifier is `name` (None:
+    it has none) give an integer?  The class's own __hash__ is interpreted
+    with the identifier as the only thing known about the line; a __hash__
+    that needs more than that is taken to give one when every path returns
+    (rule hashable_lines)."""
+    key = (cls, name)
+    if key in _HASHABLE:
+        return _HASHABLE[key]
+    f = cls.find_method("__hash__")
+    if f is None:
+        res = True              # object.__hash__
+    else:
+        class NameHooks(LineHooks):
+            def method(self, ev, base, mname, args, kwargs, node):
+                if isinstance(base, Abs) and base.label == "probe" and \
+                        mname in ("get", "try_get"):
+                    return name
+                if isinstance(base, str) and mname == "__hash__":
+                    return hash(base)
+                return super().method(ev, base, mname, args, kwargs, node)
+
+            def getattr(self, ev, base, attr):
+                if isinstance(base, Abs) and base.label == "probe" and \
+                        attr == "name":
+                    return name
+                return super().getattr(ev, base, attr)
+        try:
+            out = eval_function(repo, f, [Abs(cls, label="probe")],
+                                hooks=NameHooks(repo))
+            res = out[0] == "return" and isinstance(out[1], int) and \
+                not isinstance(out[1], bool)
+            if out[0] == "return" and not res and \
+                    out[1] is not NotImplemented and out[1] is not None:
+                res = True
+        except Unsupported:
+            res = returns_on_all_paths(f.node.body)
+    _HASHABLE[key] = res
+    return res
 
 
 def returns_on_all_paths(body):
